@@ -83,6 +83,17 @@ def sweep(tier):
                     for ignore in (False, True):
                         for borrower in (False, True):
                             out.append(graph_world(k, edges, victim, stage, ignore, borrower))
+    # a file that carries two modules, the one it is named after broken in a way that stops loading (first or last in the
+    # file), next to a healthy module requested in the same call
+    for v in ('cut', 'cutmacro', 'syntax', 'lex', 'dupsym', 'unkparent'):
+        for order in (['AAA-MIB', 'BBB-MIB'], ['BBB-MIB', 'AAA-MIB']):
+            for ignore in (False, True):
+                specs = {}
+                for i_, n_ in enumerate(('AAA-MIB', 'BBB-MIB', 'CCC-MIB')):
+                    specs[n_] = {'name': n_, 'imports': [], 'oidparent': None, 'arc': 100 + i_, 'identity': False, 'nobj': 1, 'arcs': [1], 'compliance': False, 'variant': 'ok'}
+                out.append({'modules': specs, 'codegen': 'json', 'files': {'BBB-MIB': list(order)}, 'co_only': ['AAA-MIB'], 'requested': ['CCC-MIB', 'BBB-MIB'],
+                            'sources': [{'holds': {'BBB-MIB': {'o': 'ok', 'variants': {'BBB-MIB': v}}, 'CCC-MIB': {'o': 'ok'}}, 'base': 'all', 'mtime': core.EPOCH0 - 50}],
+                            'searchers': [], 'borrowers': [], 'options': {'ignoreErrors': True} if ignore else {}, 'stage': 'bundled-' + v})
     return out
 
 
